@@ -14,6 +14,7 @@ import (
 	"fmt"
 	"sort"
 	"strings"
+	"time"
 
 	"github.com/ovn-org/libovsdb/ovsdb"
 	"verifharness/internal/dyn"
@@ -365,8 +366,32 @@ func c07Child(r *ev.Run, batch int) {
 			mons = append(mons, &c07mon{req: mr, peer: conns[pi]})
 			return true
 		}
+		// Peers that register monitors and go away in the middle of the history: the
+		// remaining monitors must go on receiving exactly their notifications.
+		var leavers []*peer.Peer
+		leaveAt := -1
+		if ci%2 == 1 {
+			for i := 0; i < 1+p.Intn(3); i++ {
+				pc, err := peer.Dial(srv.Path)
+				if err != nil {
+					break
+				}
+				mr := genMonReq(p, s, 100+i, true, true)
+				_, _ = mr.register(pc, s.Name)
+				leavers = append(leavers, pc)
+			}
+			leaveAt = 2 + p.Intn(10)
+			r.Count("cases_with_departing_monitoring_peers", 1)
+		}
 		dead := false
 		for ti := 0; ti < txns && !dead; ti++ {
+			if ti == leaveAt {
+				for _, pc := range leavers {
+					pc.Close()
+				}
+				leavers = nil
+				time.Sleep(20 * time.Millisecond) // let the server see the connections go
+			}
 			if ti%8 == 0 && len(mons) < 6 {
 				if !addMonitor() {
 					dead = true
@@ -477,6 +502,9 @@ func c07Child(r *ev.Run, batch int) {
 			}
 		}
 		for _, c := range conns {
+			c.Close()
+		}
+		for _, c := range leavers {
 			c.Close()
 		}
 		writer.Close()
